@@ -249,6 +249,14 @@ def stanzaSendToks (k : Kind) (fresh : String) : List Tok → Except StanzaErr (
 /-- tokens reaching the underlying `xml.Encoder` for a call on a fresh (depth 0) encoder -/
 def wireToks (cfg : Cfg) (fresh : String) (ts : List Tok) : List Tok := (encode cfg fresh 0 ts).2
 
+/-- number of top-level elements in a token list read at depth `d` (start tokens at depth 0) -/
+def topCount : Nat → List Tok → Nat
+  | _, [] => 0
+  | 0, .start _ _ :: ts => 1 + topCount 1 ts
+  | d + 1, .start _ _ :: ts => topCount (d + 2) ts
+  | d, .stop _ :: ts => topCount (d - 1) ts
+  | d, _ :: ts => topCount d ts
+
 /-! ### buffering: `xml.Encoder` writes into a buffer that only `Flush` moves to the connection -/
 
 inductive Op
